@@ -1,5 +1,9 @@
 import SiaModel.Ledger.Model
-/-! # C01 — value conservation (theorems being developed; see DESIGN.md §6 C01) -/
+import SiaProofs.Lemmas.LedgerC01Fees
+/-! # C01 — value conservation (see DESIGN.md §6 C01)
+
+The ledger model is `SiaModel/Ledger/Model.lean`; helper lemmas are in
+`SiaProofs/Lemmas/LedgerC01*.lean`. -/
 namespace C01
 open Sia.Ledger
 
@@ -12,5 +16,87 @@ theorem c01_reward_ge_minimum (L : Ledger) : L.P.minimumCoinbase ≤ blockReward
   · split
     · exact Nat.le_refl _
     · rename_i h; exact Nat.le_of_not_lt h
+
+/-! ## 1. Miner fees reappear exactly in the miner payout -/
+
+/-- An accepted block pays its miner(s) exactly the block reward plus every v1 miner fee plus
+every v2 miner fee (sums over `Nat`, i.e. exact: `sumChecked` cannot wrap). -/
+theorem c01_fees_in_payout {L : Ledger} {b : Block} {pid : Id} {ms : Mid}
+    (h : validateBlock L b pid = .ok ms) :
+    (b.payouts.map (·.2.value)).sum = blockReward L + b.fees1.sum + b.fees2.sum :=
+  validateMinerPayouts_ok (validateOrphan_ok (validateBlock_ok h).1)
+
+/-- hypotheses are satisfiable: a block with one v1 fee and one v2 fee -/
+example : ∃ (L : Ledger) (b : Block),
+    validateMinerPayouts L b = .ok () ∧ b.fees1 = [7] ∧ b.fees2 = [5] := by
+  let t1 : Txn1 := { (default : Txn1) with fees := [7] }
+  let t2 : Txn2 := { (default : Txn2) with fee := 5 }
+  let L : Ledger := { (default : Ledger) with P := { (default : Params) with initialCoinbase := 100, minimumCoinbase := 30 } }
+  refine ⟨L, { (default : Block) with txns1 := [t1], v2 := some (0, true, [t2]), payouts := [(1, { value := 112, addr := 0 })] }, ?_, rfl, rfl⟩
+  rfl
+
+/-! ## Element lookups check the element kind (regression guard for the v1 aliasing fix) -/
+
+theorem c01_lookup_checks_kind {ms : Mid} {ts : Supp1} {id : Id} {e : ScElem}
+    (h : ms.scElement ts id = some e) : e.id = id := by
+  unfold Mid.scElement at h
+  split at h
+  · rename_i d hd
+    cases h
+    unfold Mid.scDiff? at hd
+    split at hd
+    · split at hd
+      · rename_i hc; cases hd; exact hc.2
+      · cases hd
+    · cases hd
+  · have := List.find?_some h
+    simpa using this
+
+theorem c01_lookup_checks_kind_sf {ms : Mid} {ts : Supp1} {id : Id} {e : SfElem}
+    (h : ms.sfElement ts id = some e) : e.id = id := by
+  unfold Mid.sfElement at h
+  split at h
+  · rename_i d hd
+    cases h
+    unfold Mid.sfDiff? at hd
+    split at hd
+    · split at hd
+      · rename_i hc; cases hd; exact hc.2
+      · cases hd
+    · cases hd
+  · have := List.find?_some h
+    simpa using this
+
+theorem c01_lookup_checks_kind_fc1 {ms : Mid} {ts : Supp1} {id : Id} {e : Fc1Elem}
+    (h : ms.fc1Element ts id = some e) : e.id = id := by
+  unfold Mid.fc1Element at h
+  split at h
+  · rename_i d hd
+    cases h
+    unfold Mid.fc1Diff? at hd
+    split at hd
+    · split at hd
+      · rename_i hc; cases hd
+        unfold Fc1Diff.current; split <;> exact hc.2
+      · cases hd
+    · cases hd
+  · split at h
+    · rename_i e' he'
+      cases h
+      have := List.find?_some he'
+      simpa using this
+    · rw [Option.map_eq_some_iff] at h
+      obtain ⟨p, hp, rfl⟩ := h
+      have := List.find?_some hp
+      simpa using this
+
+/-! ## 4. Siafund claims are exact -/
+
+/-- `claimPortion` returns exactly `⌊(pool − claimStart) / 10000⌋ · value` and returns at all only
+when neither the subtraction underflows nor the product overflows 128 bits. -/
+theorem c01_claim_exact {pool cs : Cur} {v : Nat} {c : Cur} :
+    claimPortion pool cs v = .ok c ↔
+      (cs ≤ pool ∧ (pool - cs) / 10000 * v < curLimit ∧ c = (pool - cs) / 10000 * v) :=
+  claimPortion_ok
 
 end C01
